@@ -547,7 +547,47 @@ func (sp *spaceRules) probe(p *bounds.Probe) {
 			}
 			l, have = hi.Sub(lo.Int), true
 			what = "slice"
+			// a slice that is only the destination of a copy receives at most len(source) bytes: decided at the copy
+			if copyOnlyDst(x) != nil {
+				return
+			}
 		case *ssa.Call:
+			if bi, ok := x.Common().Value.(*ssa.Builtin); ok && bi.Name() == "copy" && len(x.Common().Args) == 2 {
+				dst, isSl := x.Common().Args[0].(*ssa.Slice)
+				if !isSl || copyOnlyDst(dst) != x {
+					return
+				}
+				bp := ir.PathOf(dst.X)
+				if len(bp.Fields) == 0 || bp.Fields[len(bp.Fields)-1] != "buf" || dst.Low == nil {
+					return
+				}
+				if k, ok := dst.Low.(*ssa.Const); ok && k.Value != nil && k.Value.ExactString() == "0" {
+					return
+				}
+				what = "copy-into-ring"
+				d, ok1 := p.Val(0, dst)
+				sv, ok2 := p.Val(0, x.Common().Args[1])
+				good := false
+				for _, r := range sp.reservations(p) {
+					if ok1 && d.Kind == bounds.KSlice && p.Proves(bounds.LE(d.Len, r[1])) || ok2 && sv.Kind == bounds.KSlice && p.Proves(bounds.LE(sv.Len, r[1])) {
+						good = true
+					}
+				}
+				k := ordinalOf(fn, p.Instr, func(in ssa.Instruction) bool {
+					c2, ok := in.(*ssa.Call)
+					if !ok {
+						return false
+					}
+					b2, ok := c2.Common().Value.(*ssa.Builtin)
+					if !ok || b2.Name() != "copy" {
+						return false
+					}
+					d2, ok := c2.Common().Args[0].(*ssa.Slice)
+					return ok && copyOnlyDst(d2) == c2
+				})
+				sp.record(fmt.Sprintf("%s:%s#%d:write-window-within-the-reservation", fn.Name(), what, k), "window", c.P.InstrPos(p.Instr), "bytes copied into the ring <= reserved count", fn.Name()+" copies into the ring more bytes than were reserved for it: bytes the consumer has not read yet are overwritten", good, "in context "+p.Ctx+": min(len(dst), len(src)) <= count of a reservation is not provable")
+				return
+			}
 			f := x.Common().StaticCallee()
 			if f == nil || f.Name() != "ringCopy" || len(x.Common().Args) != 3 {
 				return
@@ -677,4 +717,52 @@ func (sp *spaceRules) reservePost(p *bounds.Probe, ret *ssa.Return) {
 	sp.record(key+":space-is-free", "post", pos, "start + count - size <= a value read from the consumer's cursor on every way to the return", "the space reservation "+fn.Name()+" can return successfully although start + count - size exceeds every position read from the consumer's cursor: the producer is allowed to overwrite bytes the consumer has not committed", space, "no read C of the consumer's cursor (or cached gate) with start + count - size <= C is provable on some way to this return")
 	sp.record(key+":start-is-own-cursor", "post", pos, "start == a read of the producer's cursor", fn.Name()+" returns a start position that is not the producer's cursor", own, "start == read of pseq not provable")
 	sp.record(key+":count-is-the-amount-asked-for", "post", pos, "count == n", fn.Name()+" returns a count that is not the amount asked for", count, "count == n not provable")
+}
+
+// copyOnlyDst: the slice expression is used by nothing but one builtin copy, as its destination; returns that call.
+func copyOnlyDst(x *ssa.Slice) *ssa.Call {
+	refs := x.Referrers()
+	if refs == nil {
+		return nil
+	}
+	var only *ssa.Call
+	for _, r := range *refs {
+		if _, isDbg := r.(*ssa.DebugRef); isDbg {
+			continue
+		}
+		call, ok := r.(*ssa.Call)
+		if !ok || only != nil {
+			return nil
+		}
+		bi, ok := call.Common().Value.(*ssa.Builtin)
+		if !ok || bi.Name() != "copy" || len(call.Common().Args) != 2 || call.Common().Args[0] != ssa.Value(x) || call.Common().Args[1] == ssa.Value(x) {
+			return nil
+		}
+		only = call
+	}
+	return only
+}
+
+// ringSizeLin: the ring's size as engine B names it in the entry frame of the probe (the value of a load of the
+// receiver's size field).
+func ringSizeLin(p *bounds.Probe, fn *ssa.Function) *bounds.Lin {
+	top := p.Frames() - 1
+	f := p.Fn(top)
+	if len(f.Params) == 0 {
+		return nil
+	}
+	for _, b := range f.Blocks {
+		for _, in := range b.Instrs {
+			if u, ok := in.(*ssa.UnOp); ok && u.Op == token.MUL {
+				pp := ir.PathOf(u.X)
+				if n := len(pp.Fields); n == 1 && pp.Fields[0] == "size" && pp.Root == ssa.Value(f.Params[0]) {
+					if av, ok := p.Val(top, u); ok && av.Kind == bounds.KInt {
+						l := av.Int
+						return &l
+					}
+				}
+			}
+		}
+	}
+	return nil
 }
